@@ -799,9 +799,35 @@ func TestVerifC01SlowAuth(t *testing.T) {
 				}
 				c.Conns = append(c.Conns, vfC01ConnScript{K: myK, Actions: []vfC01Action{{Kind: kind, N: 1}, {Kind: "stream", N: 2}}})
 				slowRaws = append(slowRaws, raw)
+				// some of the slow ones lose patience: the client resets its pending auth request after a second
+				// (the connection stays open) and tries to proxy anyway; the verdict arrives later all the same
+				cancels := (j == 0 && i%2 == 0) || (j > 0 && r.Intn(2) == 0)
+				if j == 0 && i%2 == 0 {
+					kind, cred = "auth_held_bad", fmt.Sprintf("hold:bad-c%d", myK)
+					c.Conns[len(c.Conns)-1].Actions[0].Kind = kind
+				}
 				go func() {
 					defer func() { slowDone <- struct{}{} }()
-					resp := raw.AuthReq(cred, "0")
+					ctx, cancel := context.WithCancel(context.Background())
+					defer cancel()
+					cancelled := make(chan struct{})
+					if cancels {
+						go func() {
+							defer close(cancelled)
+							time.Sleep(time.Second)
+							cancel()
+							k.Count("ev_slow_auth_requests_cancelled_by_client", 1)
+							time.Sleep(200 * time.Millisecond)
+							probe(raw, st, myK, 3)
+							_ = raw.Conn.SendDatagram(vfUDPMessageBytes(9, 0, 0, 1, fmt.Sprintf("c%dx4.verif:53", myK), []byte("after-cancel-dgram")))
+							// the verdict (the release) comes later; wait for it before the final probe
+							time.Sleep(holdFor)
+						}()
+					} else {
+						close(cancelled)
+					}
+					resp := raw.AuthReqCtx(ctx, cred, "0")
+					<-cancelled
 					st.mu.Lock()
 					if resp.Status == 233 {
 						st.saw233 = true
